@@ -18,7 +18,7 @@ RESET = [-6]
 FATAL = [-5, -7, -8]
 
 
-def build_harness(ctx_scratch: Path, backend: str):
+def build_harness(ctx_scratch: Path, backend: str, thermal: bool = False):
     from ..harness.render import render, reset_globals, quiet
     from ..harness.cxx import GXX, SHIM, run
 
@@ -26,7 +26,11 @@ def build_harness(ctx_scratch: Path, backend: str):
     from naunet.network import Network
 
     with quiet():
-        net = Network(required_species=["H"])
+        if thermal:
+            # NEQUATIONS = NSPECIES + 1: the temperature equation is integrated (and recovered) like any other
+            net = Network(required_species=["H", "e-", "H+"], cooling=["CIC_HI"])
+        else:
+            net = Network(required_species=["H"])
         files = render(net, backend, None)
     d = Path(tempfile.mkdtemp(dir=ctx_scratch))
     for rel, text in files.items():
@@ -111,15 +115,15 @@ def run(ctx):
     samples = []
     compiled = []
     cap = 40_000_000 if ctx.tier == "quick" else 2_000_000_000
-    for backend in ("dense", "sparse"):
-        d, drv, err = build_harness(ctx.scratch, backend)
+    for backend in ("dense", "sparse", "dense+thermal"):
+        d, drv, err = build_harness(ctx.scratch, backend.split("+")[0], thermal=backend.endswith("+thermal"))
         if drv is None:
             raise HarnessError(f"C19 harness does not compile for {backend}: {err}")
         compiled.append(backend)
         try:
             work = []
             for (name, mode, lvl, flags, fracs, ok, rf, dt) in cvode_passes(ctx.tier):
-                if backend == "sparse" and not name.startswith("T3"):
+                if backend != "dense" and not name.startswith("T3"):
                     continue  # Solve/HandleError text is identical for dense and sparse (checked below); one full ladder pass is enough
                 arity = len(ok) + len(flags) * len(fracs)
                 roots = [[c] for c in range(arity)]
@@ -205,7 +209,7 @@ def replay(ctx, case):
     if case.get("backend") == "rosenbrock4":
         run_odeint(ctx)
         return
-    d, drv, err = build_harness(ctx.scratch, case["backend"])
+    d, drv, err = build_harness(ctx.scratch, case["backend"].split("+")[0], thermal=case["backend"].endswith("+thermal"))
     if drv is None:
         raise HarnessError(err)
     try:
